@@ -697,7 +697,9 @@ func auditHistory(s *Spec, rr *RunResult, nsites int, tmpDir string) ([]Violatio
 				continue
 			}
 			a, b := solo[t][i], other[t][i]
-			if b.S == StPanic || b.S == StAborted {
+			if b.S == StPanic || b.S == StAborted || b.S == StExpensive {
+				// did not terminate normally, or was merely expensive, in the other
+				// execution: step counts may legitimately depend on history (a cache)
 				continue
 			}
 			if a.Status == b.S && bytes.Equal(a.Res, b.R) && a.Late == b.L {
